@@ -202,7 +202,7 @@ func domFacts(blk *ssa.BasicBlock, base ssa.Value) lenSet {
 		if ifi, ok := d.Instrs[len(d.Instrs)-1].(*ssa.If); ok {
 			// which successor leads (exclusively) to b's dominator subtree?
 			for si, s := range d.Succs {
-				if len(s.Preds) == 1 && s.Dominates(blk) {
+				if soleEntry(s, d) && s.Dominates(blk) && d.Succs[0] != d.Succs[1] {
 					if x, cs, ok := condLen(ifi.Cond); ok && sameLenBase(x, base) {
 						if si == 0 {
 							set &= cs
